@@ -35,12 +35,13 @@ impl OptRec {
     }
     pub fn to_options(&self) -> Options {
         // the derive string goes through the public builder, as a caller's would
-        Options {
-            text_identifier: self.text_identifier.clone(),
-            attribute_prefix: self.attribute_prefix.clone(),
-            derive: String::new(),
-            sort: if self.sort_by_name { xml_schema_generator::SortBy::XmlName } else { xml_schema_generator::SortBy::Unsorted },
-        }
+        // start from a preset and assign the public fields, so that a field added to `Options` does not stop the harness
+        let mut o = Options::quick_xml_de();
+        o.text_identifier = self.text_identifier.clone();
+        o.attribute_prefix = self.attribute_prefix.clone();
+        o.derive = String::new();
+        o.sort = if self.sort_by_name { xml_schema_generator::SortBy::XmlName } else { xml_schema_generator::SortBy::Unsorted };
+        o
         .derive(&self.derive)
     }
     pub fn tokens(&self) -> String {
